@@ -1,3 +1,4 @@
+import Btdht.Proofs.GuardTie.Lookup
 import Btdht.Proofs.Codec
 import Btdht.Proofs.Bencode
 import Btdht.Model.Handler
